@@ -645,6 +645,9 @@ class Check:
             # the individual cases they stand for; returns the four lists to decide on
             cases, impl, model, verdicts = rf(cases, impl, model, verdicts, self.run_both)
         self.cov['run_s'] = round(time.time() - t, 1)
+        if hasattr(gen, 'extra_coverage'):
+            # optional generator hook: additional coverage data for the evidence (C15: the inventory)
+            self.cov.update(gen.extra_coverage())
         known = load_known(self.pid)
         dist = {}
         seen = set()
